@@ -53,7 +53,12 @@ def step (op impl : String) : String × Verdict :=
   match op.splitOn " " with
   | "Soft" :: rest =>
       match parseCase rest with
-      | some c => (showVerdict (wrapSoft c.soft), .fail)
+      | some c =>
+          let m := showVerdict (wrapSoft c.soft)
+          -- the property fixes accept/reject and the class (soft); which soft rule is named first is the
+          -- model's business: a different soft error is a model/code difference, not a property failure
+          let v : Verdict := if m.startsWith "soft " && impl.startsWith "soft " then .hold else .fail
+          (m, v)
       | none => ("bad-op", .unknown)
   | ["Size", ns, ni, no] =>
       match nat? ns, nat? ni, nat? no with
@@ -75,7 +80,8 @@ def step (op impl : String) : String × Verdict :=
                        else match verifySoftHard (.ok ()) c.soft with
                          | .ok => "ok" | .soft e => "soft " ++ e.toString
                          | .hard _ => "hard" | .panic => "panic"
-              (v ++ " | " ++ data, .fail)
+              let verdict : Verdict := if v.startsWith "soft " && impl.startsWith "soft " then .hold else .fail
+              (v ++ " | " ++ data, verdict)
           | none => ("bad-data", .unknown)
       | _ => (normImpl impl, .unknown)
   | _ => ("bad-op", .unknown)
